@@ -44,6 +44,12 @@ def gen_cases(ctx):
                 cases.append({"kind": "catalogue", "inpkg": inpkg, "genseed": ctx.seed * 31 + inpkg, "idx": ch, "template": "matryer", "formatter": "goimports",
                               "placement": "inpkg-test" if inpkg else rng.choice(["outpkg", "xtest"]), "td": td, "gomod": "plain", "srckind": "ordinary",
                               "drvseed": rng.randrange(1, 1 << 20), "td_level": ["root", "iface", "recparent"][ci % 3]})
+    # every option true at the top level and explicitly false (its default) on every second interface: an explicit default is a setting, not an absence
+    for inpkg in ((True,) if ctx.tier == "quick" else (True, False)):
+        for k in range(2 if ctx.tier == "quick" else 6):
+            cases.append({"kind": "catalogue", "inpkg": inpkg, "genseed": ctx.seed * 31 + inpkg, "idx": list(range(40 * k, 40 * k + CHUNK)), "template": "matryer", "formatter": "goimports",
+                          "placement": "inpkg-test" if inpkg else "outpkg", "td": {"skip-ensure": True, "stub-impl": True, "with-resets": True}, "gomod": "plain",
+                          "srckind": "ordinary", "drvseed": rng.randrange(1, 1 << 20), "td_level": "root", "override_false": True})
     for k in range(6 if ctx.tier == "quick" else 40):
         inpkg = k % 2 == 0
         cases.append({"kind": "random" if k % 3 else "catalogue", "inpkg": inpkg, "genseed": rng.randrange(1 << 30) if k % 3 else ctx.seed * 31 + inpkg,
@@ -65,6 +71,8 @@ def eval_case(ctx, case):
         # all mocks in ONE output file, every interface with its own combination of options
         r = random.Random(case["drvseed"])
         case = dict(case, td={}, td_by_name={i["name"]: {k: True for k in ("skip-ensure", "stub-impl", "with-resets") if r.random() < 0.5} for i in ifaces})
+    if case.get("override_false"):
+        case = dict(case, td_by_name={i["name"]: {"skip-ensure": False, "stub-impl": False, "with-resets": False} for k, i in enumerate(ifaces) if k % 2 == 0})
     root, info, usable, note = drvrun.prepare(ctx, case, ifaces, ctx.known)
     if root is None:
         return Verdict.skipped(note) if usable == [] else Verdict.inconclusive(note)
@@ -76,7 +84,7 @@ def eval_case(ctx, case):
     hist = 25 if ctx.tier == "quick" else 120
     r, findings, summary, races = drvrun.run_tests(root, info, "^TestDrvMatryer$", {"DRV_SEED": str(case["drvseed"]), "DRV_HISTORIES": str(hist), "DRV_HISTLEN": "12"})
     td = case.get("td") or {}
-    tags = ["placement=" + case["placement"]] + ["td." + k for k in td] + (["td.none"] if not td else [])
+    tags = ["placement=" + case["placement"]] + ["td." + k for k in td] + (["td.none"] if not td else []) + (["explicit-false-on-interfaces"] if case.get("override_false") else [])
     if r.timed_out:
         return Verdict.inconclusive("watchdog")
     if summary is None:
